@@ -98,4 +98,47 @@ mod verif_driver_coercion {
         }
         println!("VERIF-CASES fn=expr_into_metadatum n={n}");
     }
+
+    // ---- C02: a number position receives the number it was given, or the amount of a bundle that consists of ONE asset
+    // entry; a bundle of several entries of different classes denotes no single number and is refused - it is never
+    // narrowed to one of its entries (a dropped quantity).
+    // BOUND: boundary integers as plain numbers and as single-entry bundles; bundles of 2 and 3 entries of distinct classes.
+    #[test]
+    fn expr_into_number_contract() {
+        let mut n = 0;
+        let entry = |policy: Option<u8>, amount: i128| tir::AssetExpr {
+            policy: match policy { Some(p) => tir::Expression::Bytes(vec![p; 28]), None => tir::Expression::None },
+            asset_name: match policy { Some(_) => tir::Expression::Bytes(b"TKN".to_vec()), None => tir::Expression::None },
+            amount: tir::Expression::Number(amount),
+        };
+        for a in boundary() {
+            for (desc, e) in [(format!("Number({a})"), tir::Expression::Number(a)), (format!("Assets([lovelace {a}])"), tir::Expression::Assets(vec![entry(None, a)])), (format!("Assets([token {a}])"), tir::Expression::Assets(vec![entry(Some(7), a)]))] {
+                n += 1;
+                match quiet(|| expr_into_number(&e)) {
+                    Err(p) => witness("cardano_coercion/expr_into_number#reachable-panic", "expr_into_number", desc, format!("panic:{p}"), "Ok or Err"),
+                    Ok(Ok(v)) if v == a => {}
+                    Ok(other) => witness("cardano_coercion/expr_into_number#postcondition", "expr_into_number", desc, format!("{other:?}").chars().take(80).collect(), &format!("Ok({a})")),
+                }
+            }
+        }
+        for bundle in [vec![entry(None, 500), entry(Some(7), 7)], vec![entry(Some(7), 7), entry(None, 500)], vec![entry(Some(1), 1), entry(Some(2), 2), entry(None, 3)]] {
+            n += 1;
+            let desc = format!("Assets of {} entries of distinct classes, amounts {:?} class=bundle-of-several-entries", bundle.len(), bundle.iter().map(|x| match x.amount { tir::Expression::Number(n) => n, _ => 0 }).collect::<Vec<_>>());
+            match quiet(|| expr_into_number(&tir::Expression::Assets(bundle.clone()))) {
+                Err(p) => witness("cardano_coercion/expr_into_number#reachable-panic", "expr_into_number", desc, format!("panic:{p}"), "Ok or Err"),
+                Ok(Ok(v)) => witness("cardano_coercion/expr_into_number#postcondition", "expr_into_number", desc, format!("Ok({v})"), "Err: no single number denotes the bundle (narrowing it to one entry drops the others)"),
+                Ok(Err(_)) => {}
+            }
+        }
+        // anything that is not a number is refused
+        for (desc, e) in [("Bytes", tir::Expression::Bytes(vec![1])), ("String", tir::Expression::String("1".into())), ("Bool", tir::Expression::Bool(true)), ("None", tir::Expression::None)] {
+            n += 1;
+            match quiet(|| expr_into_number(&e)) {
+                Err(p) => witness("cardano_coercion/expr_into_number#reachable-panic", "expr_into_number", desc.into(), format!("panic:{p}"), "Ok or Err"),
+                Ok(Ok(v)) => witness("cardano_coercion/expr_into_number#postcondition", "expr_into_number", desc.into(), format!("Ok({v})"), "Err: not a number"),
+                Ok(Err(_)) => {}
+            }
+        }
+        println!("VERIF-CASES fn=expr_into_number n={n}");
+    }
 }
